@@ -158,8 +158,10 @@ def build_project(cells, dep5=False, dirs=("d", "e")):
                  "in2": {"prec": "closest", "cop": [], "lic": ["LicenseRef-inner-two"], "source": "u/in2/REUSE.toml", "stype": "reuse-toml"}}
         files["u/in1/REUSE.toml"] = "version = 1\n\n[[annotations]]\npath = '**'\nprecedence = 'closest'\nSPDX-FileCopyrightText = '2005 inner-one'\n"
         files["u/in2/REUSE.toml"] = "version = 1\n\n[[annotations]]\npath = '**'\nprecedence = 'closest'\nSPDX-License-Identifier = 'LicenseRef-inner-two'\n"
+        # (u/in1x/, u/in1.txt, u/in12/: names that merely BEGIN like the directory of a nested REUSE.toml are not below it)
         for rel, chain in (("u/a0.txt", [outer]), ("u/in1/f.txt", [outer, inner["in1"]]), ("u/in2/f.txt", [outer, inner["in2"]]), ("u/m.txt", [outer]),
-                           ("u/in1/g.txt", [outer, inner["in1"]]), ("u/zz.txt", [outer]), ("u/zz/last.txt", [outer])):
+                           ("u/in1/g.txt", [outer, inner["in1"]]), ("u/zz.txt", [outer]), ("u/zz/last.txt", [outer]),
+                           ("u/in1x/h.txt", [outer]), ("u/in1.txt", [outer]), ("u/in12/deep/k.txt", [outer]), ("u/in2-old/f.txt", [outer])):
             files[rel] = "body\n"
             expected["u:" + rel] = (rel,) + A.attribute(None, chain)
     if not dep5:
@@ -213,11 +215,19 @@ def run_project(ctx, cells, dep5=False, mp=False, dirs=("d", "e"), root_mode="de
         tree.write_tree(root, files)
         if root_mode == "git":
             tree.git_init(root)
-        res, data = tree.lint_json(root, mp=mp, extra={"dot": ("--root", "."), "dotslash": ("--root", "./")}.get(root_mode, ()))
+        if root_mode == "outside":
+            # started somewhere else, the root given absolutely (a worker that opens a path relative to ITS cwd finds nothing)
+            elsewhere = ctx.fresh_dir("elsewhere")
+            res, data = tree.lint_json(root, mp=mp, extra=("--root", str(root)), cwd=elsewhere)
+            data_paths = None
+        else:
+            res, data = tree.lint_json(root, mp=mp, extra={"dot": ("--root", "."), "dotslash": ("--root", "./")}.get(root_mode, ()))
         cdesc = {"cells": [[k, own, dl, [list(o) if o else None for o in opts]] for k, own, dl, opts in cells], "dep5": dep5, "dirs": list(dirs), "root_mode": root_mode}
         if data is None:
             ctx.fail(cdesc, f"lint --json failed: {res.brief()}")
-        by_path = {f["path"]: f for f in data["files"]}
+        import os as _os
+
+        by_path = {(_os.path.relpath(f["path"], root) if _os.path.isabs(f["path"]) else f["path"]): f for f in data["files"]}
         for key, (rel, exp, strict, allowed) in expected.items():
             if isinstance(key, int):
                 continue
@@ -321,6 +331,8 @@ def run(ctx):
     dmine = [c for i, c in enumerate(dep_cells) if i % ctx.nshards == ctx.shard]
     if dmine:
         run_project(ctx, [(k, own, dl, opts) for k, (own, dl, opts) in enumerate(dmine)], dep5=True)
+        # the same dep5 cells with the worker pool, started outside the project (the workers read dep5 again)
+        run_project(ctx, [(k, own, dl, opts) for k, (own, dl, opts) in enumerate(dmine)], dep5=True, mp=True, root_mode="outside")
     ctx.extra["exhaustive"] = True
     ctx.extra["exhaustive_subspaces"] = [
         "all 30 x 25 x 25 two-level cells on (root, d/e); all with both tables present also on (d, d/e) and (root, d)",
